@@ -284,6 +284,46 @@ func (e *Engine) globalInit(c *Ctx, g *ssa.Global) (string, bool) {
 			}
 		}
 	}
+	if complex && n == 0 {
+		// array of scalars initialised element by element with constants
+		if at, ok := et.Underlying().(*types.Array); ok && init != nil {
+			term := c.sorts.zero(et)
+			okAll := true
+			for _, b := range init.Blocks {
+				for _, in := range b.Instrs {
+					st, ok := in.(*ssa.Store)
+					if !ok {
+						continue
+					}
+					ia, ok := st.Addr.(*ssa.IndexAddr)
+					if !ok || ia.X != g {
+						if fa, ok := st.Addr.(*ssa.FieldAddr); ok && fa.X == g {
+							okAll = false
+						}
+						continue
+					}
+					ik, ok1 := ia.Index.(*ssa.Const)
+					vk, ok2 := st.Val.(*ssa.Const)
+					if !ok1 || !ok2 {
+						okAll = false
+						continue
+					}
+					is, ok3 := c.sorts.constTerm(ik.Value, types.Typ[types.Int])
+					vs, ok4 := c.sorts.constTerm(vk.Value, at.Elem())
+					if !ok3 || !ok4 {
+						okAll = false
+						continue
+					}
+					term = fmt.Sprintf("(store %s %s %s)", term, is, vs)
+				}
+			}
+			if okAll {
+				c.note("package-level constant array (no store outside init): " + name)
+				return term, true
+			}
+		}
+		return "", false
+	}
 	if complex || n > 1 {
 		return "", false
 	}
